@@ -20,11 +20,14 @@ def compare(rec, b, mjm, mjd, m, d, cmp, opts):
 
   if mjm.nsensor == 0 and not (mjm.opt.enableflags & mujoco.mjtEnableBit.mjENBL_ENERGY):
     return "skip:no_sensor"
-  for rnd in range(2):
+  for rnd in range(3):
+    if rnd == 2:
+      st3 = family.make_state({"c": dict(rec["c"] if "c" in rec else rec, salt=2)}, mjm, opts.get("seed", 0))
+      family.apply_state(mjm, mjd, m, d, st3)
     if rnd == 1:
       # a second evaluation on the SAME Data at a different state: outputs must not carry anything over from the first one
       # (sensors that only write their slot while something is active, e.g. limit sensors, rely on the buffer being reset)
-      st2 = family.make_state({"c": dict(rec["c"] if "c" in rec else rec, salt=1)}, mjm, opts.get("seed", 0))
+      st2 = family.make_state({"c": dict(rec["c"] if "c" in rec else rec, salt=1, qc="zero", vc="zero")}, mjm, opts.get("seed", 0))  # rest pose: limits inactive
       family.apply_state(mjm, mjd, m, d, st2)
     _compare_once(mjm, mjd, m, d, cmp)
 
